@@ -3,15 +3,15 @@ import OpcuaVerif.Lemmas.C04
 namespace OpcuaVerif.C04
 open OpcuaVerif.Text
 
-def dstep (a : Nat) (c : Char) : Nat := 10 * a + digitVal c
+def digitStep (a : Nat) (c : Char) : Nat := 10 * a + digitVal c
 
-theorem digitsVal_eq (cs : List Char) : digitsVal cs = cs.foldl dstep 0 := rfl
+theorem digitsVal_eq (cs : List Char) : digitsVal cs = cs.foldl digitStep 0 := rfl
 
-theorem foldl_zeros (k a : Nat) : (List.replicate k '0').foldl dstep a = a * 10 ^ k := by
+theorem foldl_zeros (k a : Nat) : (List.replicate k '0').foldl digitStep a = a * 10 ^ k := by
   induction k generalizing a with
   | zero => simp
   | succ k ih =>
-    simp only [List.replicate_succ, List.foldl_cons, ih, dstep]
+    simp only [List.replicate_succ, List.foldl_cons, ih, digitStep]
     have : digitVal '0' = 0 := by decide
     rw [this, Nat.pow_succ]; simp [Nat.mul_assoc, Nat.mul_comm]
 
